@@ -31,7 +31,11 @@ func (a *SparseFloat32Matrix) Equals(b ConstMatrix, epsilon float64) bool {
   for it := a.JOINT_ITERATOR(b); it.Ok(); it.Next() {
     s1, s2 := it.GET()
     if s1.ptr == nil {
-      return false
+      // a has no entry at this position, i.e. it is zero there
+      if !ConstFloat32(0.0).Equals(s2, epsilon) {
+        return false
+      }
+      continue
     }
     if !s1.Equals(s2, epsilon) {
       return false
